@@ -196,6 +196,51 @@ def self_field_of(v):
     return Rl.self_field_name(v)
 
 
+def _last_field(v):
+    while v[0] in ("deref", "ref", "cast"):
+        v = v[1]
+    return v[2] if v[0] == "field" else None
+
+
+def estimator_feed(b, start, known=None, avoid=()):
+    """Which fields of the step-size strategy are fed to the estimator (`advance(stat, target)`) on feasible paths from block `start`.
+    `known` fixes boolean locals (a `late` flag) so that the branch choosing the statistic is pruned. -> (set of field names, [call sites])"""
+    per = estimator_feed_sites(b, start, known, avoid)
+    out = set()
+    for fs in per.values():
+        out |= fs[1]
+    return out, [(bb, fs[0]) for bb, fs in sorted(per.items())]
+
+
+def estimator_feed_sites(b, start, known=None, avoid=()):
+    """{block: (call terminator, set of fed fields)} for every advance() call on feasible paths from `start`."""
+    reach = b.reach_feasible(start, avoid, known)
+    per = {}
+    for bb, t in b.calls_to(lambda c: c.get("name") == "advance"):
+        if bb not in reach or len(t["args"]) < 2:
+            continue
+        out = set()
+        v = b.value(t["args"][1])
+        f = _last_field(v)
+        if f:
+            out.add(f)
+        elif v[0] == "local":
+            for d in b.defs().get(v[1], []):
+                if d[1] in reach and d[0] == "stmt" and d[3]["k"] == "assign":
+                    f2 = _last_field(b.rvalue_value(d[3]["rv"]))
+                    out.add(f2 or "?")
+        else:
+            out.add("?")
+        per[bb] = (t, out)
+    return per
+
+
+def estimator_inlined(F, b):
+    """b with the step-size strategy's estimator-update helpers inlined (update_estimator_early/_late or a merged update_estimator(late))."""
+    from . import inline as IN
+    return IN.inlined(F, b, lambda cb, t: (cb.fn_name or "").startswith("update_estimator") and path_ends(cb.parent.get("self_adt") or "", "stepsize::adapt::Strategy"), depth=2)
+
+
 def r4(F, R):
     R.rule("C07-R4", "statistic lanes: the field reported as mean_tree_accept feeds the early estimator update, the field reported as "
                      "mean_tree_accept_sym feeds the late one; Strategy::update copies them from two different RunningMeans of the collector")
@@ -234,6 +279,37 @@ def r4(F, R):
                     R.bad("C07-R4", key, "%s @%s" % (ub.path, loc(t["span"])), "second argument of advance() is not the target_accept option")
                 else:
                     R.ok("C07-R4", key, "%s @%s" % (ub.path, loc(t["span"])), "%s lane -> advance(.., target_accept)" % lane)
+    # the two functions merged into one taking a flag: the flag selects the lane
+    have_split = bool(F.inherent_methods(adt, "update_estimator_early")) and bool(F.inherent_methods(adt, "update_estimator_late"))
+    if not have_split:
+        merged = [ub for ub in list(F.bodies.values()) + list(F.removed_helpers.values())
+                  if ub.kind != "closure" and path_ends(ub.parent.get("self_adt") or "", adt) and (ub.fn_name or "").startswith("update_estimator")]
+        for ub in merged:
+            flags = [i for i in range(2, ub.arg_count + 1) if ub.local_ty(i) == "bool"]
+            usite = "%s @%s" % (ub.path, ub.loc())
+            if len(flags) != 1:
+                R.bad("C07-R4", ub.path + ":advance", usite, "cannot tell which statistic %s feeds into the estimator" % ub.fn_name)
+                continue
+            got = {}
+            for val in (False, True):
+                got[val], sites = estimator_feed(ub, 0, {flags[0]: val})
+                for i, (bb, t) in enumerate(sites):
+                    v = ub.value(t["args"][2]) if len(t["args"]) > 2 else None
+                    if v is None or "target_accept" not in vt_str(v):
+                        R.bad("C07-R4", "%s:advance#%d" % (ub.path, i), "%s @%s" % (ub.path, loc(t["span"])), "second argument of advance() is not the target_accept option")
+            flag_name = ub.local_name(flags[0])
+            if got[True] == {lanes["mean_tree_accept_sym"]} and got[False] == {lanes["mean_tree_accept"]}:
+                for i in range(4):
+                    R.ok("C07-R4", "%s:advance#%d" % (ub.path, i), usite, "%s(%s): true -> %s lane, false -> %s lane" % (ub.fn_name, flag_name, "sym", "plain"))
+            elif got[False] == {lanes["mean_tree_accept_sym"]} and got[True] == {lanes["mean_tree_accept"]}:
+                # inverted flag (`early: bool`): judged where it is called (C09-R4 / C06-R4 look at the lane on each edge)
+                for i in range(4):
+                    R.ok("C07-R4", "%s:advance#%d" % (ub.path, i), usite, "%s(%s): false -> sym lane, true -> plain lane" % (ub.fn_name, flag_name))
+            else:
+                R.bad("C07-R4", ub.path + ":advance", usite, "%s feeds %s when %s is true and %s when it is false; expected one acceptance lane each" % (
+                    ub.fn_name, sorted(got[True]), flag_name, sorted(got[False])))
+        if not merged:
+            R.bad("C07-R4", adt + ":estimator-update", adt, "no function of the step-size strategy advances the estimator")
     # Strategy::update: lanes come from two different RunningMean fields
     src = {}
     for ub in F.inherent_methods(adt, "update"):
